@@ -13,6 +13,8 @@ E8  mux_envs re-creates every scope and re-binds every binding as a fresh vector
     no scope or binding can be skipped and the result's storage is never written directly
 E11 the parser places every parsed sub-expression into the tree once: sugar never clones an operand into a second evaluated position
 E12 the lowering lowers every child expression of a node once: no child is cloned, none is lowered inside a loop over something else
+E13 every unrolled loop iteration is lowered in a scope of its own (push / pop inside the iteration)
+E14 a function body is lowered on the top-level scope plus its parameters (callee: Env::outermost_scope; entry function: parameters in a scope above the consts)
 E10 cross-reference: the accessor copy of the array read tree agrees with the expression copy (C01-V8)
 """
 from .. import mir, protocol
@@ -115,6 +117,21 @@ def rule_e4(ctx):
     return res
 
 
+def _on_callee_env(body, t):
+    """The call works on an environment made by Env::outermost_scope (a callee's environment) and does not lower a child of the node."""
+    envs = [a for a in t["args"] if a["k"] in ("copy", "move") and "env::Env<" in a["place"]["ty"]]
+    if not envs:
+        return False
+    roots = body.trace(envs[0]["place"], through={})
+    if not roots or not all(r[0] == "call" and str(r[2]).endswith("outermost_scope") and not p for (r, p) in roots):
+        return False
+    for a in t["args"]:
+        if a["k"] in ("copy", "move") and a is not envs[0] and ("Expr<" in a["place"]["ty"] or "Stmt<" in a["place"]["ty"] or "Pattern<" in a["place"]["ty"]):
+            if any(r == C02.SELF1 for (r, p) in body.trace(a["place"])):
+                return False
+    return True
+
+
 def rule_e9(ctx):
     """Every child is lowered on an environment whose changes survive: the caller's own, or a copy that is merged back."""
     res = RuleResult("E9", "no construct lowers a child on a copy of the environment that is then thrown away")
@@ -145,6 +162,10 @@ def rule_e9(ctx):
                 rs = protocol.reach(val, r)
                 for s_ in sorted(s_ for s_ in x if not isinstance(s_, tuple) and s_ in r.mutators and s_ not in rs):
                     t = r.mutators[s_]
+                    if _on_callee_env(body, t):
+                        # the body of a called function is not a child of the call: it is lowered on an environment of its own
+                        # (top-level scope + parameters), and `a callee's mutations are invisible to the caller`
+                        continue
                     res.bad(Finding("E9", f["id"], "%s: %s lowered on an environment that is thrown away" % (v["name"], mir.last_seg(mir.callee(t) or "?")),
                                     "assignments made while lowering this child are not contained in the environment at the end of the %s arm: the child runs on a copy that is neither merged "
                                     "back (mux_envs) nor installed" % v["name"], t["sp"]))
@@ -719,5 +740,102 @@ def rule_e12(ctx):
     return res
 
 
+def rule_e13(ctx):
+    """`a shadowing binding ends with its scope`: the body of a loop is a scope per iteration.  In the unrolled lowering the
+    scope has to be opened and closed inside the iteration, otherwise a `let` of one iteration is visible at the start of
+    the next."""
+    res = RuleResult("E13", "every unrolled loop iteration is lowered in a scope of its own (Env::push / Env::pop inside the iteration)")
+    n = 0
+    for f in ctx.fns.values():
+        if f["sp"][0] != "src/compile.rs" or not f.get("mir"):
+            continue
+        body = ctx.body(f["id"])
+        binds = [b for b, t in body.calls() if not body.blocks[b]["cleanup"] and mir.last_seg(mir.callee(t) or "") == "compile"
+                 and t["args"] and t["args"][0]["k"] in ("copy", "move") and "Pattern<" in t["args"][0]["place"]["ty"]]
+        if not binds:
+            continue
+        pushes = {b for b, t in body.calls() if (mir.callee(t) or "").endswith("Env::<T>::push")}
+        pops = {b for b, t in body.calls() if (mir.callee(t) or "").endswith("Env::<T>::pop")}
+        lowers_stmts = {b for b, t in body.calls() if mir.last_seg(mir.callee(t) or "") == "compile" and t["args"] and t["args"][0]["k"] in ("copy", "move")
+                        and "Stmt<" in t["args"][0]["place"]["ty"]}
+        loops = body.loops()
+        for pb in binds:
+            inl = [lp for lp in loops if pb in lp["body"] and lp["body"] & lowers_stmts]
+            if inl:
+                lp = max(inl, key=lambda l: len(l["body"]))     # the iteration loop (the statement loop is nested in it)
+                n += 1
+                inside = lambda x: [y for y in body.succs(x) if y in lp["body"]]
+                w1 = body.path(lp["header"], [pb], blocked=pushes, succ=inside)
+                # from the binding once around the loop back to the header
+                w2 = None
+                for s in inside(pb):
+                    w2 = w2 or body.path(s, [lp["header"]], blocked=pops, succ=inside)
+                if w1 or w2:
+                    res.bad(Finding("E13", f["id"], "loop iteration without a scope of its own",
+                                    "the loop variable is bound and the body statements are lowered %s inside the iteration: a `let` in the body of one iteration is still "
+                                    "in scope at the start of the next (`for i in [1u8, 2u8, 3u8] { acc = acc + i; let acc = 100u8; }`)" %
+                                    ("without Env::push" if w1 else "without Env::pop"), body.term(pb)["sp"]))
+                else:
+                    res.ok({"function": f["id"], "loop": "line %d" % body.term(pb)["sp"][1], "verdict": "push before the loop variable is bound, pop before the next iteration"})
+            elif body.fn["kind"] == "closure" and lowers_stmts:
+                n += 1
+                w = body.path(0, [pb], blocked=pushes)
+                if w:
+                    res.bad(Finding("E13", f["id"], "loop iteration without a scope of its own", "the per-iteration closure binds the loop variable without Env::push", body.term(pb)["sp"]))
+                else:
+                    res.ok({"function": f["id"], "iteration closure": "line %d" % body.term(pb)["sp"][1], "verdict": "push before the loop variable is bound"})
+    if n < 2 and not res.findings:
+        raise AnchorMissing("E13: expected the for-each loop and the join loop closure, found %d" % n)
+    return res
+
+
+def rule_e14(ctx):
+    """A function body can only refer to its parameters, its own bindings and the top-level consts.  The lowering looks names up
+    innermost scope first, so the body has to be lowered on an environment that holds the top-level scope and the parameters and
+    nothing of the caller; and for the entry function the parameters must not share the scope of the consts."""
+    from . import C12
+    res = RuleResult("E14", "a function body is lowered on the top-level scope plus its parameters: no variable of a caller, parameters above the consts")
+    body = ctx.body(C02.fn_of(ctx, C02.EXPR_COMPILE)["id"])
+    succ = body.pruned_succ({C02.INNER: "FnCall"})
+    region = set(body.reachable([0], succ=succ))
+    k = env_arg(body)
+    n = 0
+    for b, t in body.calls():
+        if b not in region or mir.last_seg(mir.callee(t) or "") != "compile_block" or body.blocks[b]["cleanup"]:
+            continue
+        if any(r == C02.SELF1 for (r, p) in body.trace_operand(t["args"][0])):
+            continue        # a block of the node itself
+        n += 1
+        envs = [a for a in t["args"] if a["k"] in ("copy", "move") and "env::Env<" in a["place"]["ty"]]
+        roots = body.trace(envs[0]["place"], through={}) if envs else set()
+        if roots and all(r[0] == "call" and str(r[2]).endswith("outermost_scope") for (r, p) in roots):
+            res.ok({"site": "FnCall: callee body at line %d" % t["sp"][1], "verdict": "lowered on Env::outermost_scope() of the caller's environment plus the parameter scope"})
+        else:
+            res.bad(Finding("E14", body.id, "callee body lowered on the caller's environment",
+                            "the body of the called function is lowered on the caller's environment (with one more scope): a local variable of the caller that has the name "
+                            "of a top-level const is found first, so the callee reads the caller's variable", t["sp"]))
+    if n != 1 and not res.findings:
+        raise AnchorMissing("E14: expected one compile_block of the callee body in the FnCall arm, found %d" % n)
+    # entry function
+    f, eb = C12._cwc(ctx)
+    pushes = [b for b, t in eb.calls() if (mir.callee(t) or "").endswith("Env::<T>::push")]
+    lets = [(b, t) for b, t in eb.calls() if mir.callee(t) == ENV_LET]
+    if len(lets) < 5:
+        raise AnchorMissing("E14: expected the const and parameter bindings of compile_with_constants, found %d" % len(lets))
+    for b, t in lets:
+        name = eb.trace_operand(t["args"][1])
+        is_param = any(pp[-1:] == ("name",) or tuple(pp[-2:]) == ("[]", "0") and r[0] == "call" and str(r[2]).endswith("Vec::<T>::new") for (r, pp) in name)
+        deep = any(eb.dominates(pb, b) for pb in pushes)
+        if is_param and not deep:
+            res.bad(Finding("E14", f["id"], "parameter bound in the scope of the consts",
+                            "the parameters of the entry function are bound in the outermost scope, where the consts are bound after them: a const with the name of a "
+                            "parameter replaces the parameter (`const X: u8 = 1u8; pub fn main(X: u8) -> u8 { X }` returns 1)", t["sp"]))
+        elif not is_param and deep:
+            res.bad(Finding("E14", f["id"], "const bound below the outermost scope", "a const is bound in an inner scope: called functions (lowered on the outermost scope) cannot see it", t["sp"]))
+        else:
+            res.ok({"site": "%s binding at line %d" % ("parameter" if is_param else "const / external value", t["sp"][1]), "verdict": "own scope" if is_param else "outermost scope"})
+    return res
+
+
 def run(ctx):
-    return ctx.run_rules([rule_e1, rule_e2, rule_e3, rule_e4, rule_e5, rule_e6, rule_e7, rule_e8, rule_e9, rule_e10, rule_e11, rule_e12])
+    return ctx.run_rules([rule_e1, rule_e2, rule_e3, rule_e4, rule_e5, rule_e6, rule_e7, rule_e8, rule_e9, rule_e10, rule_e11, rule_e12, rule_e13, rule_e14])
